@@ -49,6 +49,7 @@ type Contract struct {
 	Ensures    []Clause
 	Assumes    []Clause
 	Invariants map[int][]Clause
+	EveryIter  map[int][]string // loop ordinal -> callees of which every completed iteration passes a site
 	Modifies   []string
 	HasMod     bool // a modifies/pure clause was given
 	Pure       bool
@@ -322,6 +323,16 @@ func (cs *ContractSet) loadFile(path string) error {
 			k, _ := strconv.Atoi(m[1])
 			c := Clause{Src: m[2], Line: loc}
 			cur.Invariants[k] = append(cur.Invariants[k], c)
+		case "everyiter":
+			m := reInv.FindStringSubmatch(rest)
+			if m == nil {
+				return fmt.Errorf("%s: everyiter needs loop#k: prefix", loc)
+			}
+			k, _ := strconv.Atoi(m[1])
+			if cur.EveryIter == nil {
+				cur.EveryIter = map[int][]string{}
+			}
+			cur.EveryIter[k] = append(cur.EveryIter[k], strings.Fields(m[2])...)
 		case "modifies":
 			cur.HasMod = true
 			if rest != "nothing" {
